@@ -232,7 +232,7 @@ namespace pika::detail {
             // Callback is currently executing on another thread,
             // block until it finishes executing.
             pika::util::yield_while(
-                [&]() { return !cb->callback_finished_executing_.load(std::memory_order_relaxed); },
+                [&]() { return !cb->callback_finished_executing_.load(std::memory_order_acquire); },
                 "stop_state::remove_callback");
         }
     }
